@@ -15,6 +15,7 @@ import concurrent.futures as cf
 import os
 
 import vplib as V
+from checks import cloudcommon
 from checks import tablecommon as T
 
 PID = "C11"
@@ -163,6 +164,7 @@ def run(tier, out):
                    "distinct = exported transitions + prefix events" % (cov["design_cfg"], cov["random_runs"], cov["random_len"]))
     cov["self_test"] = "; ".join(st)
     cov["checker_cmd"] = "tlc MC_Prefix / MC_Table / Trace_Prefix / Trace_Table"
+    cloudcommon.part(PID, tier, out, cov)
     return out.finish("model_checking", cov, assumptions=[
         "ticks are housekeeping rounds: every clock change is followed by ClaimTable::housekeep before the next call (DESIGN.md 5.3)",
         "the tick at exactly expiry is a don't-care; remaining lifetimes in dumps are not compared, expiry is judged by presence after the sweeps",
